@@ -119,6 +119,7 @@ type Machine struct {
 	fnCache      map[*ssa.Function]*fnInfo
 	freezeStop   map[interface{}]bool
 	lazy         bool
+	mapPerm      map[*mapV][]mapEntry
 }
 
 func NewMachine(sh *Shared, solver *Solver) *Machine {
@@ -161,6 +162,7 @@ func (m *Machine) resetPath(prefix []int32, maxSteps int64) {
 	m.randCount = 0
 	m.pcVars = nil
 	m.freezeStop = nil
+	m.mapPerm = nil
 }
 
 func (m *Machine) pos() string {
